@@ -12,10 +12,15 @@ import (
 	"fmt"
 	"math/big"
 	"sort"
+	"strings"
 
 	"github.com/nspcc-dev/neo-go/pkg/core/state"
 	"github.com/nspcc-dev/neo-go/pkg/encoding/bigint"
 	"github.com/nspcc-dev/neo-go/pkg/io"
+	"github.com/nspcc-dev/neo-go/pkg/smartcontract/trigger"
+	"github.com/nspcc-dev/neo-go/pkg/util"
+	"github.com/nspcc-dev/neo-go/pkg/vm/stackitem"
+	"github.com/nspcc-dev/neo-go/pkg/vm/vmstate"
 
 	"verif/harness/internal/hx"
 )
@@ -371,5 +376,46 @@ func tokensCorpus() []corpusCase {
 			rn.o.Count("corpus:transfer-odd-amount")
 		}
 	})
+	// execution results whose stack / notification holds a long ByteString (a deployed contract's state item with a
+	// 64..128 KB script): what the node stores it must read back (the item limit is stackitem.MaxSize on both sides)
+	for _, n := range []int{65535, 65536, 70340, 98000, 131000, stackitem.MaxSize - 16} {
+		n := n
+		cs = append(cs, func(rn *runner, k int) {
+			c := codecByName["aer"]
+			long := stackitem.NewArray([]stackitem.Item{stackitem.NewByteArray(bytes.Repeat([]byte{0x5c}, n)), stackitem.Make(1)})
+			for _, inEvent := range []bool{false, true} {
+				a := &state.AppExecResult{Container: util.Uint256{1}, Execution: state.Execution{Trigger: trigger.Application, VMState: vmstate.Halt, GasConsumed: 5,
+					Stack: []stackitem.Item{stackitem.Make(7)}, Events: []state.NotificationEvent{{Name: "Deploy", Item: stackitem.NewArray([]stackitem.Item{stackitem.Make(1)})}}}}
+				if inEvent {
+					a.Events[0].Item = long
+				} else {
+					a.Stack[0] = long
+				}
+				b, err := c.enc(a)
+				if err != nil {
+					rn.o.Fail("aer-encode-fails", k, "ByteString of %d bytes: %v", n, err)
+					continue
+				}
+				if n > 98000 {
+					// (the typed JSON of such an item is over MaxSize: Execution.MarshalJSON writes "error: too big"
+					// in its place, by design lossy; a notification cannot be that long at all: binary form only)
+					if inEvent {
+						continue
+					}
+					v, rest, err := c.dec(b)
+					if err != nil || rest != 0 || c.showFn()(v) != c.showFn()(a) {
+						rn.o.Fail("aer-roundtrip", k, "an execution result holding a ByteString of %d bytes (%d bytes encoded) does not read back: %v", n, len(b), err)
+					}
+					rn.o.Count("corpus:aer-long-bytestring")
+					continue
+				}
+				rep := rn.bytesCase(k, c, b)
+				if !strings.HasPrefix(rep.obs, "ok rest=0 enc="+hx.Hex(b)+" ") {
+					rn.o.Fail("aer-roundtrip", k, "an execution result holding a ByteString of %d bytes (event: %v, %d bytes encoded) does not read back: %s", n, inEvent, len(b), trunc(rep.obs, 160))
+				}
+				rn.o.Count("corpus:aer-long-bytestring")
+			}
+		})
+	}
 	return cs
 }
